@@ -2040,10 +2040,16 @@ theorem evalX_strip (E : Env) : ∀ (e : Expr) (ap : Bool) (st : St),
     · rename_i heq
       simp only [heq]; rfl
     · rename_i heq
-      simp only [heq, callFunction_strip, mapSt_bind, bind_mapSt]
-      apply bind_congr_ok
-      intro y _
-      rfl
+      simp only [heq]
+      have hm : (stripS x.2).ctx.getMacro name = x.2.ctx.getMacro name := rfl
+      rw [hm]
+      cases hgm : x.2.ctx.getMacro name with
+      | some tm => rfl
+      | none =>
+        simp only [callFunction_strip, mapSt_bind, bind_mapSt]
+        apply bind_congr_ok
+        intro y _
+        rfl
   | .test (.attr obj a) name args, ap, st => by
     rw [evalX.eq_16 E ap (stripS st), evalX.eq_16 E ap st]
     by_cases hd : (name == b "defined") = true
@@ -2058,8 +2064,8 @@ theorem evalX_strip (E : Env) : ∀ (e : Expr) (ap : Bool) (st : St),
   | .test (.var n) name args, ap, st => by
     rw [evalX.eq_17 E ap (stripS st), evalX.eq_17 E ap st]
     by_cases hd : (name == b "defined") = true
-    · simp only [hd, if_true, stripS_vars, stripS_getVar]
-      by_cases hv : (getKV n st.ctx.vars).isSome = true
+    · simp only [hd, if_true, stripS_hasVar, stripS_getVar]
+      by_cases hv : st.ctx.hasVar n = true
       · simp only [hv, if_true]; rfl
       · simp only [hv]; rfl
     · simp only [hd, Bool.false_eq_true, if_false]
